@@ -167,8 +167,9 @@ def run(ctx):
             small = vlib.shrink_list(ops, fails)
             line = kind + " " + " ".join(small)
             rc, out, err = ctx.run_exe(exe, mode, stdin=line + "\n")
-            ctx.violation("%s disagrees with the reference insertion-ordered map" % label,
-                          {"label": label, "case": line, "observed": out.strip(), "required": oracle(line),
+            shown = "ParameterizedObject" if kind == "P" else label
+            ctx.violation("%s disagrees with the reference insertion-ordered map" % shown,
+                          {"label": shown, "case": line, "observed": out.strip(), "required": oracle(line),
                            "model": ml if small == ops else None, "original_case": cases[i]})
         else:
             ctx.broken.append("correspondence C10 model vs %s on case %r: impl=%r model=%r (impl satisfies the reference map)"
